@@ -503,6 +503,41 @@ func (g *apuGenSt) lengthCase(ch, t int, le bool, odd bool, enableLater bool) {
 	g.p.c.class(fmt.Sprintf("lencase/ch%d/t%02x/le%v/odd%v/later%v/%s", ch, t, le, odd, enableLater, nr52))
 }
 
+// directed retrigger test (C19): let the length counter expire, then trigger again with length
+// still enabled in the first (odd) or second (even) half of a frame-sequencer period: the expired
+// counter is reloaded with 64/256, less one in the first half; observed through the expiry time
+func (g *apuGenSt) retriggerCase(ch int, odd bool) {
+	g.reset(3)
+	nrx1 := []int{0xff11, 0xff16, 0xff1b, 0xff20}[ch-1]
+	nrx2 := []int{0xff12, 0xff17, 0xff1a, 0xff21}[ch-1]
+	nrx4 := []int{0xff14, 0xff19, 0xff1e, 0xff23}[ch-1]
+	dac, last, full := 0xf0, 0x3f, 64
+	if ch == 3 {
+		dac, last, full = 0x80, 0xff, 256
+	}
+	g.c(100) // step counter 0 (even): no extra clock
+	g.w(nrx2, dac)
+	g.w(nrx1, last) // one length clock left
+	g.w(nrx4, 0xc0)
+	t := 3*2048 + 100 // step counter 3: first half
+	if !odd {
+		t = 4*2048 + 100 // step counter 4: second half
+	}
+	g.c(t - 100) // the counter expired at step 0
+	before := g.w(nrx4, 0xc0)
+	g.c((full - 3) * 4096)
+	nr52 := before
+	trace := ""
+	for j := 0; j < 40; j++ {
+		o := g.c(512)
+		b := nr52
+		nr52 = o[:2]
+		g.statusClass(fmt.Sprintf("retrig/ch%d/odd%v/%d", ch, odd, j), b, nr52)
+		trace += nr52[1:2]
+	}
+	g.p.c.class(fmt.Sprintf("retrig/ch%d/odd%v/%s", ch, odd, trace))
+}
+
 // waveform period measurement (C21)
 func (g *apuGenSt) measureSquare(ch, f int) {
 	g.reset(0)
@@ -667,7 +702,7 @@ func apuGen(c *ctx) {
 				ts = []int{0xff, 0xfe, 0xfd, 0x00, 0xc0}
 			}
 			if !c.thorough() {
-				ts = ts[:3]
+				ts = ts[:4] // incl. t = 0: full counter, the trigger-reload rule
 			}
 			for _, t := range ts {
 				for _, le := range []bool{true, false} {
@@ -684,6 +719,11 @@ func apuGen(c *ctx) {
 			}
 		}
 		c.notes["length_cases"] = n
+		for ch := 1; ch <= 4; ch++ {
+			g.retriggerCase(ch, true)
+			g.retriggerCase(ch, false)
+		}
+		c.notes["retrigger_cases"] = 8
 	}
 
 	// ---- C20: pacing over more than two emulated seconds (crosses tick 2*4194304), and the uint64 wrap
